@@ -433,7 +433,7 @@ def _elim(n, refine, simplify):
         A = s.termlist(terms)
         ctx_terms = [s.term("g0", V2, allow_empty=False)]
         G = s.termlist(ctx_terms)
-        elim = [["y"], ["x", "y"]][h.ctx.choose(2, "elim")]
+        elim = [["y"], ["x", "y"], []][h.ctx.choose(3, "elim")]
         tts = TransformTermStub(h, s, V2)
         sst = SimplifyStub(h, s)
         order = PList([1, 2, 3, 4, 5], h.ctx) if h.ctx.choose(2, "order_given") == 0 else None
@@ -457,6 +457,14 @@ def _elim(n, refine, simplify):
                     h.ensure("C04.elim_vars_by_relaxing.result_implied_by_original_in_context", z3.Implies(z3.And(s.sat(G), s.sat(A)), s.sat(R)))
                     for k, t in enumerate(R.attrs["terms"].items):
                         h.check("C04.elim_vars_by_relaxing.term_%d_mentions_no_eliminated_variable" % k, not (set(s.coefs(t)) & set(elim)), "mentions %s" % sorted(set(s.coefs(t)) & set(elim)))
+                if not elim and not simplify:
+                    # P-elim.identity (used by C15 at the algebra layer): nothing to eliminate and no simplification asked for -
+                    # the very same constraints come back, in order
+                    got = R.attrs["terms"].items
+                    h.check("C15.%s.nothing_to_eliminate_keeps_every_constraint" % name, len(got) == len(terms), "%d constraints for %d" % (len(got), len(terms)))
+                    for k, (a_, b_) in enumerate(zip(got, terms)):
+                        h.ensure("C15.%s.nothing_to_eliminate_constraint_%d_unchanged" % (name, k), s.same_term(a_, b_))
+                    h.check("C15.%s.nothing_to_eliminate_needs_no_tactic" % name, not tts.calls, "%d tactic dispatches" % len(tts.calls))
                 h.check("C13.%s.fresh_result" % name, R is not A and all(t is not o for t in R.attrs["terms"].items for o in terms), "result shares mutable state with self")
                 if order is None and tts.calls:
                     d = h.I.load_module(POLY).ns["TACTICS_ORDER"]
@@ -473,7 +481,7 @@ for _refine in (True, False):
         for _n in (1, 2):
             contract(
                 "PolyhedralTermList.%s[simplify=%s,%d terms]" % ("elim_vars_by_refining" if _refine else "elim_vars_by_relaxing", _simp, _n),
-                ["C04", "C14", "C13"],
+                ["C04", "C14", "C13", "C15"],
                 [PTL + ("elim_vars_by_refining" if _refine else "elim_vars_by_relaxing"), PTL + "_transform", "pacti.iocontract.iocontract:TermList.get_terms_with_vars", "pacti.utils.lists:list_diff"],
                 "S",
                 bound="%d terms and 1 context term over {x,y}; every outcome of the per-term dispatcher and of simplify" % _n,
